@@ -110,8 +110,8 @@ def reqInfo (i : Nat) : List Ev → String × String
   | _ :: r => reqInfo i r
 
 def hijInfo (i : Nat) : List Ev → String
-  | [] => "hij=-"
-  | .hijacked j t :: r => if j == i then (if t then "hij=tls" else "hij=raw") else hijInfo i r
+  | [] => "hij=-,htid=-"
+  | .hijacked j t tid :: r => if j == i then (if t then s!"hij=tls,htid={tid}" else s!"hij=raw,htid={tid}") else hijInfo i r
   | _ :: r => hijInfo i r
 
 def upTls (i : Nat) : List Ev → String
